@@ -217,8 +217,13 @@ def build_robot(spec):
             h = hint_for(fb)
             if h is not None:
                 f.__annotations__ = {"return": h}
-            body[fb["name"]] = feedback(f) if fb.get("key") is None else feedback(key=fb["key"])(f)
+            body[fb["name"]] = (feedback()(f) if fb.get("parens") else feedback(f)) if fb.get("key") is None else feedback(key=fb["key"])(f)
         bases = (type("B_" + cname, (), base_body),) if base_body else ()
+        if c.get("magic_component"):
+            # the optional documented base class, reached through an intermediate class of the team's own
+            from magicbot.magiccomponent import MagicComponent
+            Mid = type("Mid_" + cname, bases + (MagicComponent,), {})
+            bases = (Mid,)
         if c.get("is_sm"):
             # a magicbot.StateMachine used as a component: the framework's own execute/on_enable/on_disable run after ours
             from magicbot.state_machine import StateMachine, state as sm_state
@@ -299,7 +304,13 @@ def build_robot(spec):
                 h = hint_for(fb)
                 if h is not None:
                     f.__annotations__ = {"return": h}
-                body[fb["name"]] = feedback(f) if fb.get("key") is None else feedback(key=fb["key"])(f)
+                body[fb["name"]] = (feedback()(f) if fb.get("parens") else feedback(f)) if fb.get("key") is None else feedback(key=fb["key"])(f)
+            if spec.get("period_on_instance"):
+                # control_loop_wait_time set on the instance (in createObjects) instead of on the class
+                del body["control_loop_wait_time"]
+                body["createObjects"] = lambda self, _p=spec["period_us"] / 1e6: setattr(self, "control_loop_wait_time", _p)
+            if spec.get("teleop_in_auto") and spec.get("teleop_in_auto_as_int"):
+                body["use_teleop_in_autonomous"] = 1
         prev = type(rc["name"], (prev,), body)
     return prev, tracked
 
